@@ -230,7 +230,10 @@ def main():
     bdir = os.path.join(VERIF, 'build', prop)
     os.makedirs(bdir, exist_ok=True)
     out = os.path.join(bdir, 'hoot_verus.rs')
-    ev_path = os.path.join(VERIF, 'evidence', prop + '.json')
+    # evidence/<id>.json describes a run of the registered command on /repo.  Experiments (seeded changes applied to
+    # /repo, scratch copies given with --repo) must not overwrite it: they write under build/ instead.
+    ev_dir = os.environ.get('VERIF_EVIDENCE_DIR') or (os.path.join(VERIF, 'evidence') if os.path.abspath(a.repo) == '/repo' else os.path.join(VERIF, 'build', 'experiment_evidence'))
+    ev_path = os.path.join(ev_dir, prop + '.json')
     os.makedirs(os.path.dirname(ev_path), exist_ok=True)
 
     # 1. weave from the current working tree.  If rustc / the Verus front end rejects the woven text INSIDE a function
